@@ -280,7 +280,9 @@ def c_hname(name):
     for k, kc in KINDS.items():
         if name.startswith(k + "_") and name[len(k) + 1 :] in TARGETS:
             return f"(NGen {kc} {TARGETS[name[len(k) + 1:]]})"
-    return f"(NUnknown {cN(UNKNOWN.index(name))})"
+    if name in UNKNOWN:
+        return f"(NUnknown {cN(UNKNOWN.index(name))})"
+    return f"(NUnknown {cN(1000 + sum(ord(ch) * (i + 1) for i, ch in enumerate(name)) % 100000)})"  # any other function name: no hook name
 
 
 def p_hname(v):
@@ -956,6 +958,199 @@ def make_oracle_fn(kind, fired_labels):
     return fn
 
 
+def oracle_register(env, r, fn):
+    """One complete registration expression through the public API."""
+    closures = {"global": env.regs[0], "schema": env.regs[1], "schema_hook": env.regs[2], "test": env.regs[3]}
+    target = closures[r["scope"]]
+
+    def chain(t, fs):
+        for k, c in fs:
+            t = getattr(t, k)(**{a: (list(v) if isinstance(v, list) else v) for a, v in c.items()})
+        return t
+
+    if r["form"] == "function":
+        chain(target, r["filters"])(fn)
+    elif r["form"] == "apply":
+        env.schema.hooks.apply(fn, name=r["hook"])(env.test)
+    elif r["form"] == "named":
+        chain(target, r["filters"])(r["hook"])(fn)
+    elif r["form"] == "named_inner":
+        chain(target(r["hook"]), r["filters"])(fn)
+    else:
+        half = len(r["filters"]) // 2
+        chain(chain(target, r["filters"][:half])(r["hook"]), r["filters"][half:])(fn)
+
+
+def draw_cases(operation, test_disp, examples, seed):
+    import hypothesis
+
+    strategy = operation.as_strategy(hooks=test_disp)
+
+    @hypothesis.seed(seed)
+    @hypothesis.settings(max_examples=examples, database=None, deadline=None, derandomize=False, phases=[hypothesis.Phase.generate],
+                         suppress_health_check=list(hypothesis.HealthCheck))
+    @hypothesis.given(case=strategy)
+    def run_one(case):
+        pass
+
+    run_one()
+
+
+def hook_target(hook):
+    return "path_parameters" if hook.endswith("path_parameters") else hook.split("_")[-1]
+
+
+def has_body(fact):
+    return "requestBody" in RAW["paths"][fact["path"]][fact["method"]]
+
+
+# ---------- generation INTERLEAVED with registration / unregistration on one schema object ----------
+SCOPE_CLOSURE = {"global": 0, "schema": 1, "schema_hook": 2, "test": 3}
+SCOPE_DISP = {"global": 0, "schema": 1, "schema_hook": 1, "test": 2}
+
+
+def _reg(i, scope, form, hook, fn_name, filters):
+    return {"id": i, "scope": scope, "form": form, "hook": hook, "fn_name": fn_name, "filters": filters}
+
+
+# always run first: generate, register, generate the SAME operation again, unregister, generate again - on every scope and form
+INTERLEAVED_FIXED = [
+    [["generate", 0], ["register", _reg(0, "global", "function", "map_query", "map_query", [["apply_to", {"method": "GET"}]])], ["generate", 0], ["generate", 1],
+     ["register", _reg(1, "schema_hook", "named_inner", "filter_headers", "tag_b", [["skip_for", {"path": "/items"}]])], ["generate", 0], ["generate", 5],
+     ["unregister", 0], ["generate", 0], ["register", _reg(2, "test", "named", "map_cookies", "tag_c", [])], ["generate", 0], ["unregister", 1], ["unregister", 2], ["generate", 0]],
+    [["generate", 1], ["generate", 4], ["register", _reg(0, "test", "apply", "before_generate_body", "tag_d", [])], ["generate", 1], ["generate", 4],
+     ["register", _reg(1, "schema", "named_split", "flatmap_path_parameters", "tag_e", [["apply_to", {"path": "/users/{id}"}], ["skip_for", {"method": "put"}]])],
+     ["generate", 4], ["generate", 2], ["unregister", 0], ["generate", 1], ["register", _reg(2, "global", "named", "map_case", "tag_f", [["apply_to", {"tag": "admin"}]])],
+     ["generate", 1], ["generate", 2], ["unregister", 2], ["generate", 1]],
+]
+
+
+def gen_events(rng, n_regs):
+    """[["generate", op index] | ["register", registration] | ["unregister", registration id]]: few operations, generated repeatedly."""
+    regs = gen_registrations(rng, n_regs)
+    used = rng.sample(range(len(UNIVERSE)), rng.choice([1, 2, 2, 3]))
+    events, pending, live = [], list(regs), []
+    if rng.random() < 0.7:
+        events.append(["generate", rng.choice(used)])
+    while pending or (live and rng.random() < 0.3):
+        k = rng.random()
+        if pending and k < 0.6:
+            r = pending.pop(0)
+            events.append(["register", r])
+            live.append(r["id"])
+        elif live and k < 0.8:
+            events.append(["unregister", live.pop(rng.randrange(len(live)))])
+        else:
+            events.append(["generate", rng.choice(used)])
+            continue
+        if rng.random() < 0.7:
+            events.append(["generate", rng.choice(used)])
+    for i in used:
+        events.append(["generate", i])
+    return events
+
+
+def interleaved_run(events, seed=0, examples=2):
+    """Execute the events on ONE Env (one schema object, the same operation objects, one test dispatcher);
+    -> for every generate event [op index, sorted ids of the registrations whose hook ran during that generation]."""
+    env = Env()
+    funcs, sets, out = {}, {}, []
+    try:
+        for ev in events:
+            if ev[0] == "register":
+                r = ev[1]
+                kind = next(k for k in ORACLE_KINDS if r["hook"].startswith(k + "_"))
+                sets[r["id"]] = set()
+                fn = make_oracle_fn(kind, sets[r["id"]])
+                fn.__name__ = fn.__qualname__ = r.get("fn_name", r["hook"])
+                funcs[r["id"]] = (fn, r)
+                oracle_register(env, r, fn)
+            elif ev[0] == "unregister":
+                fn, r = funcs[ev[1]]
+                env.disps[SCOPE_DISP[r["scope"]]].unregister(fn)
+            else:
+                for st_ in sets.values():
+                    st_.clear()
+                draw_cases(env.operations[ev[1]], env.disps[2], examples, seed)
+                label = FACTS[ev[1]]["label"]
+                stray = sorted(rid for rid, st_ in sets.items() if st_ - {label})
+                out.append([ev[1], sorted(rid for rid, st_ in sets.items() if st_)] + ([{"ran_with_other_operation": stray}] if stray else []))
+    finally:
+        env.H.GLOBAL_HOOK_DISPATCHER.unregister_all()
+        env.disps[1].unregister_all()
+        env.close()
+    return out
+
+
+def interleaved_expected(events):
+    """The property text read directly: a hook runs in a generation iff it is registered at that moment (registered before, not
+    unregistered since) and its own filters select the operation (body hooks need an operation with a body)."""
+    live, out = {}, []
+    for ev in events:
+        if ev[0] == "register":
+            live[ev[1]["id"]] = ev[1]
+        elif ev[0] == "unregister":
+            live.pop(ev[1], None)
+        else:
+            f = FACTS[ev[1]]
+            out.append([ev[1], sorted(rid for rid, r in live.items() if expected_selected(r, f) and (hook_target(r["hook"]) != "body" or has_body(f)))])
+    return out
+
+
+def crit_call(c):
+    return {"func": None, "crit": {a: [v, None] for a, v in c.items()}}
+
+
+def c_events(events):
+    out, n_dec = [], 0
+    for ev in events:
+        if ev[0] == "generate":
+            out.append(f"(EGenerate {c_oper(FACTS[ev[1]])})")
+        elif ev[0] == "unregister":
+            r = next(e[1] for e in events if e[0] == "register" and e[1]["id"] == ev[1])
+            out.append(f"(EOp (OUnregister {cnat(SCOPE_DISP[r['scope']])} {cN(ev[1])}))")
+        else:
+            r = ev[1]
+            c = cnat(SCOPE_CLOSURE[r["scope"]])
+            fn = "{| h_id := %s; h_name := %s; h_arity := 2%%nat |}" % (cN(r["id"]), c_hname(r.get("fn_name", r["hook"])))
+            fl = [(cbool(k == "apply_to"), c_call(crit_call(cr))) for k, cr in r["filters"]]
+            if r["form"] == "function":
+                outer, inner = fl, None
+            elif r["form"] == "apply":
+                out.append(f"(EOp (ODirect 2%nat {fn} {c_hname(r['hook'])}))")
+                continue
+            elif r["form"] == "named":
+                outer, inner = fl, []
+            elif r["form"] == "named_inner":
+                outer, inner = [], fl
+            else:
+                half = len(fl) // 2
+                outer, inner = fl[:half], fl[half:]
+            out += [f"(EOp (OFilter {c} {i} {call}))" for i, call in outer]
+            if inner is None:
+                out.append(f"(EOp (ORegFn {c} {fn}))")
+            else:
+                out.append(f"(EOp (ORegName {c} {c_hname(r['hook'])}))")
+                out += [f"(EOp (ODecFilter {cnat(n_dec)} {i} {call}))" for i, call in inner]
+                out.append(f"(EOp (ODecApply {cnat(n_dec)} {fn}))")
+                n_dec += 1
+    return "(gen_trace (init [Global; Schema; Test] %s) 0 1 (Some 2%%nat) %s)" % (clist([cnat(c) for c in CLOSURES], "nat"), clist(out, "event"))
+
+
+def model_interleaved(events, trace):
+    """parsed gen_trace -> same shape as interleaved_run (body hooks only count for operations with a body, as in the code path)."""
+    gens = [ev[1] for ev in events if ev[0] == "generate"]
+    out = []
+    for i, per_target in zip(gens, unsym(trace)):
+        ids = set()
+        for ti, applied in enumerate(per_target):
+            if ti == 4 and not has_body(FACTS[i]):
+                continue
+            ids.update(fid for _, fid in applied)
+        out.append([i, sorted(ids)])
+    return out
+
+
 def oracle_run(regs, unregister=(), examples=2, seed=0):
     """Register on real dispatchers, generate real cases for every operation, return {reg id: set of labels it fired for}."""
     import hypothesis
@@ -980,38 +1175,12 @@ def oracle_run(regs, unregister=(), examples=2, seed=0):
             fn.__name__ = r.get("fn_name", r["hook"])
             fn.__qualname__ = fn.__name__
             funcs[rid] = fn
-            target = closures[r["scope"]]
-
-            def chain(t, fs):
-                for k, c in fs:
-                    t = getattr(t, k)(**{a: (list(v) if isinstance(v, list) else v) for a, v in c.items()})
-                return t
-
-            if r["form"] == "function":
-                chain(target, r["filters"])(fn)
-            elif r["form"] == "apply":
-                schema.hooks.apply(fn, name=r["hook"])(env.test)
-            elif r["form"] == "named":
-                chain(target, r["filters"])(r["hook"])(fn)
-            elif r["form"] == "named_inner":
-                chain(target(r["hook"]), r["filters"])(fn)
-            else:
-                half = len(r["filters"]) // 2
-                chain(chain(target, r["filters"][:half])(r["hook"]), r["filters"][half:])(fn)
+            oracle_register(env, r, fn)
         for rid in unregister:
             r = regs[rid]
             dispatchers[r["scope"]].unregister(funcs[rid])
         for o in env.operations:
-            strategy = o.as_strategy(hooks=test_disp)
-
-            @hypothesis.seed(seed)
-            @hypothesis.settings(max_examples=examples, database=None, deadline=None, derandomize=False, phases=[hypothesis.Phase.generate],
-                                 suppress_health_check=list(hypothesis.HealthCheck))
-            @hypothesis.given(case=strategy)
-            def run_one(case):
-                pass
-
-            run_one()
+            draw_cases(o, test_disp, examples, seed)
     finally:
         env.H.GLOBAL_HOOK_DISPATCHER.unregister_all()
         env.disps[1].unregister_all()
@@ -1159,7 +1328,9 @@ def run(chk: core.Check):
         "non-trivial = at least two registrations with different filter sets; distinct by canonical JSON.  Oracle: 5 fixed + generated sets of 1-6 "
         "complete registrations (function / named / named-inner / named-split / hooks.apply form; in the named forms the Python function name is "
         "mostly no hook name at all, sometimes another hook's name) on global, schema.hooks, schema.hook and test scope, about a third unregistered "
-        "afterwards, then real data generation for all 6 operations"
+        "afterwards, then real data generation for all 6 operations.  Interleaved stage: 2 fixed + generated event lists "
+        "generate(op) / register(complete expression) / unregister on ONE schema object and one test dispatcher, 1-3 operations generated repeatedly; "
+        "after each generate the set of registrations whose hook ran is compared with Model_C19.gen_trace and with the direct reading of the property"
     )
     chk.proofs(["Common", "C19"])
     rng = chk.rng
@@ -1313,6 +1484,42 @@ def run(chk: core.Check):
             chk.sample({"oracle_registrations": regs[:3], "wrong": len(bad)})
     chk.stages["oracle_generation"] = {"runs": n_or, "hooks_firing_on_wrong_operations": wrong, "inside_listed_regions": inside}
 
+    # ---- generation INTERLEAVED with (un)registration on one schema object: real draws vs the model's gen_trace (correspondence of
+    #      C19_generation_uses_current_registrations) vs the property text read directly (oracle)
+    n_il = (45 if quick else 450) * (10 if chk.broken else 1)
+    il_runs = []
+    for i in range(n_il):
+        events = INTERLEAVED_FIXED[i] if i < len(INTERLEAVED_FIXED) else gen_events(rng, rng.choice([1, 2, 2, 3, 4]))
+        try:
+            real = interleaved_run(events, seed=rng.randrange(1 << 30))
+        except Exception as exc:  # noqa: BLE001
+            chk.fail(f"interleaved generation crashed: {type(exc).__name__}: {exc}"[:300], {"events": events})
+            continue
+        il_runs.append((events, real))
+    traces = core.coq_eval(IMPORTS, [c_events(ev) for ev, _ in il_runs], shard=40)
+    il_wrong = il_disagree = n_gen = 0
+    for (events, real), trace in zip(il_runs, traces):
+        n_gen += len(real)
+        repeated = len(real) - len({g[0] for g in real})
+        chk.seen({"events": events}, repeated >= 1 and any(e[0] != "generate" for e in events))
+        chk.count("interleaved:generate_events", len(real))
+        chk.count("interleaved:repeated_generations_of_an_operation", repeated)
+        chk.count("interleaved:unregister_events", sum(1 for e in events if e[0] == "unregister"))
+        expected = interleaved_expected(events)
+        if real != expected:
+            il_wrong += 1
+            j = next(j for j, (a, b) in enumerate(zip(real, expected)) if a != b)
+            chk.fail(
+                f"generation #{j} for {FACTS[real[j][0]]['label']}: hooks of registrations {real[j][1:]} ran, the registrations in force at that moment "
+                f"whose own filters select it are {expected[j][1]}",
+                {"events": events},
+            )
+        model = model_interleaved(events, trace)
+        if model != real:
+            il_disagree += 1
+            chk.disagree("interleaved generation: real draws vs Model_C19.gen_trace", {"events": events}, real, model)
+    chk.stages["interleaved_generation"] = {"histories": len(il_runs), "generate_events": n_gen, "oracle_wrong": il_wrong, "model_disagrees": il_disagree}
+
     # ---- oracle: auth providers through the public API
     n_ao = (150 if quick else 2000) * (10 if chk.broken else 1)
     a_wrong = 0
@@ -1346,6 +1553,13 @@ def replay(payload) -> int:
             for r, exp, act, region in bad:
                 print(f"  registration {r['id']} {r['hook']}: fired for {act}, own filters select {exp} (region {region})")
             print("->", "FAILS" if bad else "passes")
+        if isinstance(inp, dict) and "events" in inp:
+            real = interleaved_run(inp["events"])
+            expected = interleaved_expected(inp["events"])
+            print("events", inp["events"])
+            for j, (a, b) in enumerate(zip(real, expected)):
+                print(f"  generation #{j} {FACTS[a[0]]['label']}: ran {a[1:]}, in force and selecting it {b[1]}" + ("   <-- differs" if a != b else ""))
+            print("->", "FAILS" if real != expected else "passes")
         if isinstance(inp, dict) and "auth_registrations" in inp:
             abad = auth_oracle_check(inp["auth_registrations"])
             print("auth registrations", inp["auth_registrations"])
